@@ -13,10 +13,11 @@ PROPERTY = "C07"
 META = {
     "level": "exploration",
     "rule": (
-        "Generated 0/1 matrices (<=9x7 quick, <=12x8 thorough, 'combi' family up to 16 rows) from three families: uniform "
-        "random cells with density 0.2..0.6; exact-cover-by-construction (primaries partitioned into 1-4 blocks, one row per "
-        "block, plus split / merge / duplicate / sub-block / noise / empty / secondary-only rows, rows permuted); 'combi' "
-        "(rows with 1-3 ones, many overlapping covers); then forced empty rows, duplicate rows, empty columns. Secondary "
+        "Generated 0/1 matrices (<=9x7 quick, <=12x8 thorough; 'tall' family 10..16 (thorough ..20) rows x 4..7 columns) "
+        "from four families: uniform random cells with density 0.2..0.6; exact-cover-by-construction (primaries partitioned "
+        "into 1-4 blocks, one row per block, plus split / merge / duplicate / sub-block / noise / empty / secondary-only "
+        "rows, optionally spoiled into a near miss, rows permuted); 'combi' (rows with 1-3 ones, many overlapping covers); "
+        "'tall' (density 0.4..0.6, long cover/uncover sequences); then forced empty rows, duplicate rows, empty columns. Secondary "
         "columns none/some/all, given by index (columns omitted) or by name (str, reversed ints, mixed int/str/tuple, explicit "
         "range), list or tuple containers; find_all on/off; max_solutions in {None,1,2,5}; max_iter default, small absolute "
         "(1..30), exactly the number of iterations the unrestricted run needs, or one less. A second sub-check enumerates the "
@@ -34,7 +35,7 @@ META = {
 
 # Deterministic work limit per solve_exact_cover call (DESIGN §2.4): JUMP|BRANCH events inside solvor/dlx.py.
 # Maximum observed on /repo over the calibration runs (quick seeds 1,2,3,7,42 + one thorough run): see ctx.size
-# "steps" in the evidence (2.0e3 quick, see notes/build/C07.md for thorough); the limit is > 100x that.  A corrupted link ring that loops forever trips any
+# "steps" in the evidence (2.0e3 quick, 3.0e3 thorough); the limit is > 100x that.  A corrupted link ring that loops forever trips any
 # finite limit; such a case is inconclusive ("step-budget"), never an alarm, because C07 does not claim termination.
 STEP_LIMIT = 2_000_000
 
@@ -415,6 +416,6 @@ def run_zero(desc, ctx):
 
 
 SUBS = [
-    Sub("exact_cover", run, strategy=lambda tier: instances(tier), quick=2500, thorough=9000, workers_quick=4, case_timeout=20.0),
+    Sub("exact_cover", run, strategy=lambda tier: instances(tier), quick=2500, thorough=8000, workers_quick=4, case_timeout=20.0, hang="violation"),
     Sub("zero_columns", run_zero, enumerate=zero_cases, workers_quick=1, workers_thorough=1),
 ]
